@@ -354,11 +354,12 @@ FLOAT_BODIES = ['zero', 'half', 'full_delay', 'full_moment']
 
 def run_float(case):
     """one interval()/delay() with float period; returns dict(ticks, ends, outcome, t0, error)"""
-    out = dict(ticks=[], ends=[], outcome=None, t0=None, error=None, raised_at=None)
+    out = dict(ticks=[], ends=[], outcome=None, t0=None, error=None, raised_at=None, clock_at_start=None)
     p, bodies, n = case['p'], case['bodies'], case['n']
     make = interval if case['kind'] == 'interval' else delay
 
     async def main():
+        out['clock_at_start'] = time.now
         if case['start'] and not case['run_start']:
             await (time + case['start'])
         ticker = make(p)
@@ -391,7 +392,11 @@ def run_float(case):
             out['outcome'], out['raised_at'] = 'exceeded', time.now
 
     try:
-        usim.run(main(), start=case['start'] if case['run_start'] else 0)
+        if case.get('till_far'):
+            # an end date far beyond the last tick: `run(start=s, till=t)` is the same simulation, bounded
+            usim.run(main(), start=case['start'] if case['run_start'] else 0, till=case['till_far'])
+        else:
+            usim.run(main(), start=case['start'] if case['run_start'] else 0)
     except KeyboardInterrupt:
         raise
     except BaseException as e:  # noqa
@@ -405,6 +410,10 @@ def monitor_float(case, out):
         return ['an exception left usim.run(): ' + out['error']]
     p, kind = case['p'], case['kind']
     ticks, ends, t0 = out['ticks'], out['ends'], out['t0']
+    want0 = case['start'] if case['run_start'] else 0
+    if out.get('clock_at_start') != want0:
+        bad.append('run(start=%r%s): the simulation began at %r, so every tick is displaced'
+                   % (want0, ', till=%r' % case['till_far'] if case.get('till_far') else '', out.get('clock_at_start')))
     for k, (tick, v) in enumerate(ticks):
         tol = 1e-9 * p + 1e-12 * abs(tick)       # rounding only: relative to the period and to the magnitude of the clock
         if type(v) not in (int, float) or v != tick:
@@ -473,9 +482,12 @@ def gen_float(rng, i):
         return dict(kind='interval' if rng.random() < 0.85 else 'delay', p=rng.choice([2.5e-9, 2.0 ** -30, 1, 3e-7]),
                     start=rng.choice([0, 0, 2.0 ** -20]), run_start=rng.random() < 0.5, bodies=bodies, n=rng.randint(5, 30),
                     warmup=rng.choice([0, 0, 0.5, 4, 2.0 ** -31]))
-    return dict(kind='interval' if rng.random() < 0.85 else 'delay', p=rng.choice(FLOAT_PERIODS),
+    case = dict(kind='interval' if rng.random() < 0.85 else 'delay', p=rng.choice(FLOAT_PERIODS),
                 start=rng.choice(FLOAT_STARTS), run_start=rng.random() < 0.5, bodies=bodies,
                 n=rng.randint(5, 60))
+    if rng.random() < 0.3:
+        case['till_far'] = 1e12
+    return case
 
 
 def float_family(ctx, n_cases):
